@@ -41,21 +41,40 @@ ASSUMPTIONS = [
     "byte idempotence is demanded from the 2nd serialization on (the first deserialization may move circuit ops to the front of a moment)",
 ]
 SENSITIVITY = [
-    "constants lookup keyed without tags", "tag constant index off by one on reuse", "moment lookup returns previous moment",
-    "negative coefficient dropped in Mul", "pack_bits pads at the front", "unpack_bits big-endian", "Zip serialized in reverse factor order",
-    "Product factors reversed on read", "qubit order ignored in results_from_proto", "GridDevice pair order matters",
-    "invert mask dropped when all-false prefix", "sub-circuit dedup ignores tags", "condition index dropped", "v1 CZ targets swapped",
+    "constants lookup keyed without tags",
+    "multi-program forgets shared constants between circuits (duplicate table entries)",
+    "sub-circuit constant looked up without its tags",
+    "only the first tag of a moment is read back",
+    "RandomGateChannel probability written as its complement",
+    "WaitGate on more than two qubits loses a qubit count",
+    "use_repetition_ids forced on when repetition ids are given",
+    "CircuitOperation parameter values above 1 truncated to integers",
+    "negative number inside an expression loses its sign",
+    "bitmask condition index not written",
+    "key condition path dropped",
+    "measurement key path reversed",
+    "set read back as frozenset",
+    "list mixing ints and floats no longer a double list",
+    "results_from_proto ignores the requested qubit order",
+    "find_measurements ignores differing invert masks of a repeated key",
+    "Zip drops sweeps beyond the second",
+    "float64 request ignored when repetitions is a sequence",
+    "non-symmetric two-element targets become qubit pairs",
+    "qubit pair check skipped for one qubit order",
+    "v1 product factors written in reverse order when there are three",
+    "v1 unpack_results uses the wrong key offset",
+    "[also caught by repo tests] tag constant index off by one when a tag is reused",
+    "[also caught by repo tests] pack_bits pads at the front",
+    "[also caught by repo tests] Product factors read back in reverse order when there are three",
 ]
 
 S = cg.CIRCUIT_SERIALIZER
 
-# Candidate defects found on the unchanged tree; a case exhibiting one is rejected (counted) until the coordinator
-# lists it in known_findings.json (then the framework excludes it) or fixes it (then remove the name here).
-PENDING = {
-    "F16a_circuit_op_tags_dropped", "F16b_moment_tags_merged", "F16c_device_parameter_idx0", "F16d_empty_points_crash",
-    "F16e_listsweep_hetero_keys", "F16f_unhashable_internal_arg", "F16g_unsupported_fields_dropped", "F16h_numeric_tuple_to_list",
-    "F16i_none_tag_dropped", "F16j_depolarize_zero", "F16k_frv_order", "F16l_v1_ziplongest_as_zip",
-}
+# Defects found on the unchanged tree that the fixer classified KNOWN (not repaired).  A case exhibiting one is excluded by
+# the framework once known_findings.json lists the feature; until then (and as a safety net) the oracle rejects it (counted).
+# F16b/c/d/e/g/j/k/l were repaired in /repo (fix: commits cf9bfbb 1e72958 cd616b4 828c1fe e402856 3cdea5d 5716225 3b660c6 297749d)
+# and are generated and checked like everything else.
+PENDING = {"F16a_circuit_op_tags_dropped", "F16f_unhashable_internal_arg", "F16h_numeric_tuple_to_list", "F16i_none_tag_dropped"}
 
 
 def _pending(name, sub, recipe):
@@ -649,26 +668,16 @@ def _has_hetero_list(sub, r):
 
 KNOWN_FEATURES = {
     "F16a_circuit_op_tags_dropped": lambda sub, r: sub in ("programs", "multi_program") and _has_tagged_cop(sub, r),
-    "F16b_moment_tags_merged": lambda sub, r: sub in ("programs", "multi_program") and _moments_equal_up_to_tags(sub, r),
-    "F16c_device_parameter_idx0": lambda sub, r: sub in ("sweeps", "run_context") and _has_idx0(sub, r),
-    "F16d_empty_points_crash": lambda sub, r: sub in ("sweeps", "run_context") and _has_empty_points(sub, r),
-    "F16e_listsweep_hetero_keys": lambda sub, r: sub in ("sweeps", "run_context") and _has_hetero_list(sub, r),
     "F16f_unhashable_internal_arg": lambda sub, r: sub in ("programs", "multi_program") and _has_unhashable_internal_arg(sub, r),
-    "F16g_unsupported_fields_dropped": lambda sub, r: sub in ("programs", "multi_program") and _has_unsupported_fields(sub, r),
     "F16h_numeric_tuple_to_list": lambda sub, r: sub in ("programs", "multi_program", "args") and _has_numeric_tuple(sub, r),
     "F16i_none_tag_dropped": lambda sub, r: sub in ("programs", "multi_program") and _has_none_tag(sub, r),
-    "F16j_depolarize_zero": lambda sub, r: sub in ("programs", "multi_program") and _has_depol_zero(sub, r),
-    "F16l_v1_ziplongest_as_zip": lambda sub, r: sub == "v1_params" and r.get("form") == "ziplongest",
-    "F16k_frv_order": lambda sub, r: sub in ("sweeps", "run_context") and any(
-        n[0] == "frv" and len(n[2]) >= 2 for s in _sweeps_of(r) for n in _sweep_nodes(s)),
 }
 
 
 # ========================================================================================== (1) programs
 
 
-PROGRAM_FEATURES = ("F16f_unhashable_internal_arg", "F16h_numeric_tuple_to_list", "F16i_none_tag_dropped", "F16a_circuit_op_tags_dropped",
-                    "F16g_unsupported_fields_dropped", "F16j_depolarize_zero", "F16b_moment_tags_merged")
+PROGRAM_FEATURES = ("F16f_unhashable_internal_arg", "F16h_numeric_tuple_to_list", "F16i_none_tag_dropped", "F16a_circuit_op_tags_dropped")
 
 
 def _program_labels(c, have, want_syms):
@@ -692,6 +701,8 @@ def _program_labels(c, have, want_syms):
         "repeated_constant": rep_op or rep_moment or rep_tag, "repeated_op": rep_op, "repeated_moment": rep_moment, "repeated_tag": rep_tag,
         "ops_differ_only_in_tag": tag_only, "symbolic": symbolic, "has_subcircuit": len(circs) > 1,
         "has_controls": any(op.classical_controls for op in all_ops), "nontrivial": (rep_op or rep_moment or rep_tag) and symbolic,
+        "subcircuits_equal_up_to_tags": len({cc.untagged for cc in circs[1:]}) < len(set(circs[1:])),
+        "moments_equal_up_to_tags": len({(m, tuple(m.tags)) for m in moments}) > len(set(moments)),
         "n_ops": min(nops, 12),
     }
 
@@ -726,6 +737,10 @@ def _allowed_rejections(r):
                 allowed += [r"FSimViaModelTag and TwoPulseFSimTag cannot"]
             if o["g"][0] == "M" and not re.match(r"^[^:]*$", o["g"][1]["key"]):
                 allowed += [r"Invalid key name"]
+        if any(co.get("ppath") for co in p.get("cops", [])):
+            allowed += [r"Cannot serialize CircuitOperation with parent_path"]
+        if any(o["g"][0] == "M" and o["g"][1].get("confusion") for o in ops):
+            allowed += [r"Cannot serialize measurement with a confusion_map"]
         if any(v[0] in ("add", "mul", "neg", "pow") for co in p.get("cops", []) for v in co.get("params", {}).values()):
             allowed += [r"Invalid value parameter type in deserialized CircuitOperation"]
     return allowed
@@ -1076,7 +1091,7 @@ def _sweep_case(draw):
     return {"sweep": draw(G.sweep_recipes()), "f64": draw(st.booleans())}
 
 
-SWEEP_FEATURES = ("F16d_empty_points_crash", "F16c_device_parameter_idx0", "F16e_listsweep_hetero_keys", "F16k_frv_order")
+SWEEP_FEATURES = ()
 
 
 def _build_sweep_or_reject(tree):
@@ -1084,6 +1099,16 @@ def _build_sweep_or_reject(tree):
         return G.build_sweep(tree)
     except ValueError as e:
         raise Reject("cirq refuses the sweep: " + str(e)[:40])
+
+
+def _classify_sweep_error(e, r):
+    """ListSweeps with non-uniform keys and seeds beyond int32 are outside the format (ValueError); nothing else is."""
+    msg = str(e)
+    if _has_hetero_list("sweeps", r) and "non-uniform keys" in msg:
+        raise Reject("sweep_to_proto: documented ValueError: ListSweep with non-uniform keys")
+    if "Value out of range" in msg and any(n[0] == "frv" and not -2 ** 31 <= n[3] < 2 ** 31 for s_ in _sweeps_of(r) for n in _sweep_nodes(s_)):
+        raise Reject("sweep_to_proto: seed does not fit the int32 field")
+    raise Violation(f"sweep_to_proto raised ValueError for a sweep the format supports: {msg[:100]}")
 
 
 def oracle_sweeps(r):
@@ -1094,7 +1119,7 @@ def oracle_sweeps(r):
     try:
         msg = v2.sweep_to_proto(sweep, use_float64=bool(r["f64"]))
     except ValueError as e:
-        raise Reject("sweep_to_proto: documented ValueError: " + str(e)[:40])
+        _classify_sweep_error(e, r)
     back, want = _check_sweep_roundtrip("sweep", tree, sweep, msg, bool(r["f64"]))
     # values exactly representable in float32 + no normalising constructor => the sweep object itself is equal
     nodes = list(_sweep_nodes(tree))
@@ -1169,7 +1194,7 @@ def oracle_run_context(r):
     except ValueError as e:
         if mismatch and "must match" in str(e):
             return {"nontrivial": False, "length_mismatch_rejected": True}
-        raise Reject("run_context_to_proto: documented ValueError: " + str(e)[:40])
+        _classify_sweep_error(e, r)
     if mismatch:
         raise Violation(f"run_context_to_proto accepted {len(trees)} sweeps with {len(reps)} repetition counts")
     rc = run_context_pb2.RunContext.FromString(rc.SerializeToString())
@@ -1805,7 +1830,9 @@ def oracle_v1_params(r):
     tree = r["sweep"]
     sweep = _build_sweep_or_reject(tree)
     convertible = r["form"] not in ("nested", "concat")
-    _pending("F16l_v1_ziplongest_as_zip", "v1_params", r)
+    if r["form"] == "ziplongest":  # the v1 format has no zip-longest: only expressible when it coincides with a Zip
+        lens = {(n[4] if n[0] == "lin" else len(n[2])) for n in tree[1][0][1]}
+        convertible = len(lens) <= 1
     try:
         msg = v1.sweep_to_proto(sweep, repetitions=int(r["reps"]))
     except ValueError:
@@ -1871,12 +1898,15 @@ def oracle_v1_pack(r):
 
 
 SUBCHECKS = [
-    SubCheck("programs", G.program_recipes(), oracle_programs, quick=2000, thorough=60000, shards_quick=4, shards_thorough=16),
+    SubCheck("programs", G.program_recipes(), oracle_programs, quick=2400, thorough=60000, shards_quick=8, shards_thorough=16,
+             essential={"repeated_constant": 0.3, "symbolic": 0.1, "ops_differ_only_in_tag": 0.01, "has_subcircuit": 0.03}),
     SubCheck("multi_program", _multi_case(), oracle_multi, quick=500, thorough=15000, shards_quick=2, shards_thorough=8),
     SubCheck("args", _arg_case(), oracle_args, quick=3000, thorough=100000, shards_quick=2, shards_thorough=8),
-    SubCheck("sweeps", _sweep_case(), oracle_sweeps, quick=2500, thorough=80000, shards_quick=2, shards_thorough=8),
+    SubCheck("sweeps", _sweep_case(), oracle_sweeps, quick=2500, thorough=80000, shards_quick=2, shards_thorough=8,
+             essential={"three_factors": 0.1, "has_metadata": 0.1}),
     SubCheck("run_context", _rc_case(), oracle_run_context, quick=800, thorough=20000, shards_quick=1, shards_thorough=4),
-    SubCheck("results", G.result_recipes(), oracle_results, quick=1200, thorough=40000, shards_quick=2, shards_thorough=8),
+    SubCheck("results", G.result_recipes(), oracle_results, quick=1200, thorough=40000, shards_quick=2, shards_thorough=8,
+             essential={"reps_not_multiple_of_8": 0.3, "qubit_order_permuted": 0.05}),
     SubCheck("pack_bits", _pack_case(), oracle_pack, quick=1000, thorough=30000, shards_quick=1, shards_thorough=2, enumerate=_pack_cases,
              exhaustive_in=()),
     SubCheck("devices", G.device_recipes(), oracle_devices, quick=1200, thorough=40000, shards_quick=2, shards_thorough=8),
